@@ -70,6 +70,8 @@ type Method struct {
 	Flags int
 	// Go function implementation
 	method interface{}
+	// Set if the receiver is already bound into method (see newBoundMethod)
+	boundSelf bool
 	// Parent module of this method
 	Module *Module
 }
@@ -175,7 +177,8 @@ func (m *Method) CallWithKeywords(self Object, args Tuple, kwargs StringDict) (O
 // methods
 func newBoundMethod(name string, fn interface{}) (Object, error) {
 	m := &Method{
-		Name: name,
+		Name:      name,
+		boundSelf: true,
 	}
 	switch f := fn.(type) {
 	case func(args Tuple) (Object, error):
@@ -235,6 +238,14 @@ func newBoundMethod(name string, fn interface{}) (Object, error) {
 // Call a method
 func (m *Method) M__call__(args Tuple, kwargs StringDict) (Object, error) {
 	self := Object(m.Module)
+	if m.Module == nil && !m.boundSelf {
+		// A method of a type called through the type, eg
+		// list.append(l, 1) - the instance is the first argument
+		if len(args) == 0 {
+			return nil, ExceptionNewf(TypeError, "descriptor '%s' needs an argument", m.Name)
+		}
+		self, args = args[0], args[1:]
+	}
 	if kwargs != nil {
 		return m.CallWithKeywords(self, args, kwargs)
 	}
